@@ -219,6 +219,58 @@ def obligations(tier):
             desc=f'cirq.act_on(gate.on(axes), CliffordTableauSimulationState) for {len(MENU)} Clifford gates (all 24 single-qubit Cliffords, powers, shifted, SWAP/ISWAP/parity via decomposition) on an arbitrary symbolic tableau vs conjugation table from cirq.unitary(gate)',
         )
     )
+    # ---- (b2) general (multi-qubit) CliffordGate objects: CliffordGate._act_on_ pads / permutes its tableau by `axes` and
+    # composes it with the state (CliffordTableau.then).  State: Pauli part from a menu of concrete tableaux, ALL SIGN BITS
+    # symbolic (a fully symbolic state makes `then` fork on every bit product: > 10^4 paths per gate)
+    def clifford_gates():
+        qa, qb, qc = cirq.LineQubit.range(3)
+        return [
+            (cirq.CliffordGate.CNOT, 2),
+            (cirq.CliffordGate.CZ, 2),
+            (cirq.CliffordGate.SWAP, 2),
+            (cirq.CliffordGate.from_op_list([cirq.H(qa), cirq.CNOT(qa, qb), cirq.S(qb)], [qa, qb]), 2),
+            (cirq.CliffordGate.from_op_list([cirq.S(qa), cirq.CNOT(qb, qa), cirq.H(qb), cirq.X(qa) ** 0.5], [qa, qb]), 2),
+            (cirq.CliffordGate.from_op_list([cirq.H(qa), cirq.CNOT(qa, qb), cirq.CNOT(qb, qc), cirq.S(qc)], [qa, qb, qc]), 3),
+        ]
+
+    CGATES = clifford_gates()
+
+    def base_tableau(n, which):
+        t = cirq.CliffordTableau(n)
+        if which == 1:
+            t.apply_h(0)
+            t.apply_cx(0, n - 1)
+            t.apply_z(n - 1, 0.5)
+        elif which == 2:
+            t.apply_x(n - 1, 0.5)
+            t.apply_cz(0, n - 1)
+            t.apply_h(0)
+            if n == 3:
+                t.apply_cx(2, 1)
+                t.apply_y(1, 0.5)
+        return t
+
+    def act_clifford_body(cx, wrong=False):
+        gi = cx.choose('gate', len(CGATES))
+        g, k = CGATES[gi]
+        n = cx.choose('n', 3 - k + 1) + k
+        axes = list(itertools.permutations(range(n), k))
+        ax = axes[cx.choose('axes', len(axes))]
+        qs = cirq.LineQubit.range(n)
+        tab = base_tableau(n, cx.choose('state', 3))
+        rs = np.empty(2 * n + 1, dtype=object if cx.mode != 'concrete' else bool)
+        rs[-1] = False if cx.mode == 'concrete' else SBool(False)
+        for i in range(2 * n):
+            rs[i] = cx.bool(f'r{i}')
+        tab._rs = rs
+        x0, z0, r0 = tab.xs.copy(), tab.zs.copy(), tab.rs.copy()
+        st = cirq.CliffordTableauSimulationState(tableau=tab, qubits=qs, prng=np.random.RandomState(0))
+        cirq.act_on(g.on(*[qs[a] for a in ax]), st)
+        table = OP.conjugation_table(cirq.unitary(g), k)
+        expect_rows(cx, st.tableau, x0, z0, r0, list(ax), table, f'act_on[CliffordGate #{gi}]', wrong)
+
+    obs.append(Obligation('tableau.act_on_clifford_gate', act_clifford_body, twin=lambda cx: act_clifford_body(cx, wrong=True), opts={'weight': 5, 'max_paths': 50000}, desc='cirq.act_on(CliffordGate.on(axes), CliffordTableauSimulationState) for 6 general two/three-qubit CliffordGate objects on every ordered choice of axes of 2-3 qubits (including states WITHOUT spectator qubits and non-canonical orders); state: 3 concrete Pauli parts with ALL sign bits symbolic; vs conjugation table from cirq.unitary(gate)'))
+
     # ---- (c) CliffordTableau._measure from an arbitrary VALID tableau --------------------------------------------
     from oracles.pauli import BY_XZ
 
@@ -388,7 +440,7 @@ def obligations(tier):
         for i in range(n):
             old[axes[i]] = ybits[i]
         if wrong:
-            old = old[::-1]
+            old[0] = 1 - old[0]
         xo = int(''.join(map(str, old)), 2)
         cx.close(new.inner_product_of_state_and_x(int(x)), st.inner_product_of_state_and_x(xo), label='StabilizerStateChForm.reindex amplitude')
 
@@ -505,6 +557,48 @@ def obligations(tier):
         for si, xs_ in enumerate(shards):
             nm = f'chform.gate.{gname}' + ('' if xs_ is None else f'.x{xs_[0]}')
             obs.append(Obligation(nm, lambda cx, gi=gi, xs_=xs_: chgate_body(cx, gi=gi, xs=xs_), twin=(lambda cx, gi=gi, xs_=xs_: chgate_body(cx, wrong=True, gi=gi, xs=xs_)) if (gname in ('H', 'CZ', 'S') and si == 0) else None, opts={'weight': 10, 'vc_timeout_ms': 120000}, desc=CH_DESC))
+
+    # ---- (d2) CH-form update RULES called directly: exponent from a menu covering every residue mod 2 over more than
+    # one period (negative, zero and even exponents included), SYMBOLIC global shift
+    from oracles import gates_doc as D_
+
+    RULES = {'x': (1, D_.X, 0.5), 'y': (1, D_.Y, 0.5), 'z': (1, D_.Z, 0.5), 'h': (1, D_.H, 1.0), 'cz': (2, D_.CZ, 1.0), 'cx': (2, D_.CX, 1.0)}
+
+    def chrule_body(cx, rname, wrong=False, xs=None, nq=1):
+        from oracles import embed as EM_
+
+        k, doc, step = RULES[rname]
+        n = max(k, nq)
+        exps = [step * j for j in range(int(-2 / step), int(4 / step) + 1)]
+        e0 = exps[cx.choose('exponent', len(exps))]
+        gs = cx.real('gs', -1.0, 1.0)
+        st = sym_ch(cx, n)
+        old = st.copy()
+        axes = list(itertools.permutations(range(n), k))
+        ax = axes[cx.choose('axes', len(axes))]
+        getattr(st, f'apply_{rname}')(*ax, e0, gs)
+        # documented matrix = exp(i pi shift exponent) * (matrix without shift): the shift phase is divided out of the
+        # NEW amplitude, so that a correct implementation leaves trigonometry-free terms (exact Boolean stage) while a
+        # lost / wrong phase leaves a residual exp(i pi k shift) and is refuted on the pi/4 lattice
+        U0 = EM_.embed_matrix(np.asarray(doc(e0, 0.0), dtype=complex), list(ax), n)
+        x = xs[cx.choose('x', len(xs))] if xs is not None else cx.choose('x', 2**n)
+        exp = 0
+        for y in range(2**n):
+            if abs(complex(U0[x, y])) > 1e-12:
+                exp = exp + complex(U0[x, y]) * old.inner_product_of_state_and_x(y)
+        if wrong:
+            exp = exp * (-1)
+        cx.close(st.inner_product_of_state_and_x(int(x)) * D_.ph(-e0 * gs), exp, label=f'chform.apply_{rname}(exponent={e0}, global_shift symbolic) amplitude (incl. global phase)')
+
+    CHR_DESC = 'StabilizerStateChForm.apply_<rule>(axes, exponent, global_shift) called directly on an ARBITRARY valid CH-form state (1 qubit for x/y/z/h in the quick tier, 2 qubits for cz/cx and in the thorough tier): exponent from a menu covering every admissible residue over [-2, 4] (half-integer steps for x/y/z, integer steps for h/cz/cx), SYMBOLIC global shift in [-1, 1]: every amplitude of the new state equals the documented matrix (oracles/gates_doc.py, including exp(i pi shift exponent)) applied to the old amplitudes'
+    for rname in RULES:
+        one = RULES[rname][0] == 1
+        if one:
+            obs.append(Obligation(f'chform.rule.{rname}', lambda cx, rname=rname: chrule_body(cx, rname, nq=1), twin=lambda cx, rname=rname: chrule_body(cx, rname, wrong=True, nq=1), opts={'weight': 10, 'vc_timeout_ms': 120000}, desc=CHR_DESC))
+        if not one or tier != 'quick':
+            for si, xs_ in enumerate([(0,), (1,), (2,), (3,)]):
+                nm = f'chform.rule.{rname}.n2.x{xs_[0]}'
+                obs.append(Obligation(nm, lambda cx, rname=rname, xs_=xs_: chrule_body(cx, rname, xs=xs_, nq=2), twin=(lambda cx, rname=rname, xs_=xs_: chrule_body(cx, rname, wrong=True, xs=xs_, nq=2)) if si == 0 else None, opts={'weight': 10, 'vc_timeout_ms': 120000}, desc=CHR_DESC))
 
     for n_ in ([2] if tier == 'quick' else [2, 3]):
         obs.append(
